@@ -283,6 +283,10 @@ def size_checks(cx):
             and sym.norm(kwarg(m, 'mode')) == ('const', 'r') and isinstance(shp, ast.Name) \
             and sym.norm(kwarg(m, 'order')) == ('const', 'C')
         fn.ob('GUARD', 'the file object itself is mapped read-only from the DATA begin offset in event-major order', bool(ok), m, key='memmap-args|%s' % (dotted(shp) or '?'))
+        tries = [t for t in fn.ancestors(m) if isinstance(t, ast.Try) and t.handlers and fn.in_body_of(m, t, 'body')]
+        fn.ob('GUARD', 'a failing memory map (file shorter than declared) is not caught: there is no second way to get the events', not tries,
+              tries[0] if tries else m, detail='' if not tries else 'the map is inside a try whose handler continues with another read',
+              key='memmap-no-try|%s' % (dotted(shp) or '?'))
         if not ok:
             continue
         S = shp.id
@@ -497,6 +501,8 @@ TOKEN_ITEMS = [
     ('a boundary delimiter exists iff the run is even', 'BD = NE % 2 == 0'),
     ('boundary case: escaped delimiters are appended to the token on the left', 'PL[IDX] = PL[IDX] + ND * DELIM'),
     ('boundary case: that token is complete', 'ACC.append(PL[IDX])'),
+    ('a plain token is complete as it is', 'ACC.append(PL[IDX])'),
+    ('a token glued at the front of the list is complete', 'ACC.append(PL[IDX])'),
     ('no boundary: the token on the left, the escaped delimiters and the already rebuilt token on the right are glued',
      'ACC[-1] = PL[IDX] + ND * DELIM + ACC[-1]'),
     ('tolerated ending (two delimiters): detected by an empty accumulator', 'if len(ACC) == 0:'),
